@@ -45,6 +45,24 @@ claim("C20", "model_checking",
       "Trusts dusk-bls12_381 group/pairing arithmetic; Fiat-Shamir collisions (~2^-250) assumed not to occur; empty aggregate is outside the statement (informational).",
       "DESIGN.md §5 C20")
 
+claim("C03", "model_checking",
+      "exhaustive enumeration of (verifier, proof, public inputs) triples - all 8064 single-bit flips, every field replacement, cross-circuit and cross-version presentations - real verifier vs independent reference verifier M2",
+      "On every enumerated triple the real Verifier::verify_with_version accepts iff the naive reference verifier M2 accepts (own transcript table, Z_H / L_1 / PI(z) from their definitions, linearisation commitment term by term, two independent pairings), and the two decoders agree on decodability; never a panic. Quick: 3 circuits x V3 (+V1 on one) with all 8064 flips, other (circuit, version) pairs one flip per byte; thorough: 6 circuits x V1/V2/V3, all flips. Vacuity gates: >= 1 accept per (circuit, version), >= 1 decodable-but-rejected flip per field.",
+      "Trusts M2 (DESIGN Appendix A.2/A.3) as the statement of the protocol, dusk-bls12_381 pairings/group arithmetic and merlin. V1-accepted proofs are derived from V2 proofs by the harness because the crate cannot produce them.",
+      "DESIGN.md §5 C03")
+
+claim("C04", "model_checking",
+      "exhaustive cross product of statement edits (public-input values/permutations/resizes, near-miss circuits, label edits, version pairs) on valid proofs, real verifier vs expectation derived from byte-equality of verifier descriptions and M2",
+      "For circuits with 1..4 public-input rows every PI position x alternative value, every permutation, truncation and extension, every mechanically generated near-miss verifier (one selector, one wire, one PI row added/removed/moved, one constraint more/fewer), 69 label edits and every ordered version pair must be rejected with an error unless the verifier description bytes, label, version and PI vector are all identical; never a panic; proving under V1 returns UnsupportedProvingVersion.",
+      "Expectation 'same description' = byte equality of Verifier::to_bytes(); version-pair expectations come from M2. One benign literal deviation (relocated zero-valued PI row) is a recorded known finding.",
+      "DESIGN.md §5 C04")
+
+claim("C10", "model_checking",
+      "deviation-bounded exhaustive exploration (E2) of the AND/XOR gadget for every pair count x input pair incl. the per-operand x + r alias adversary, decided by the row model M1, verdicts replayed on the real prover",
+      "For both operations, pair counts (quick: boundary set; thorough: all 0..=127) and boundary input pairs, the honest assignment, every bound-1 deviation of the gadget's allocations and the alias adversary (all accumulators/products/outputs recomputed for the integer x + r with the matching high part) are decided by M1: always satisfiable for honest inputs and every satisfying assignment returns AND/XOR of the low 2p bits of the canonical values. Model verdicts replayed on the real prover+verifier.",
+      "Trusts M1 (bound to the prover by C05), the integer spec M5, and the boundary alphabet.",
+      "DESIGN.md §5 C10")
+
 ALL = [f"C{i:02d}" for i in range(1, 21)]
 
 def main():
